@@ -292,7 +292,9 @@ pub fn run_batch(scen: &dyn Scenario, opts: &Options) -> i32 {
                         *rep.known.entry(k.clone()).or_insert(0) += v;
                     }
                     rep.histories.insert(plan.history_hash());
-                    rep.interleavings.insert(plan.interleaving_hash());
+                    if plan.ops.iter().any(|o| o.task != 0) {
+                        rep.interleavings.insert(plan.interleaving_hash());
+                    }
                     if scen.nontrivial(&plan, &ctx) {
                         rep.nontrivial.insert(plan.hash());
                     }
@@ -593,7 +595,14 @@ fn write_evidence(scen: &dyn Scenario, opts: &Options, rep: &BatchReport, wall: 
         .set("probes_at_zero", J::arr_s(&zero))
         .set("counters", other)
         .set("distinct_histories", J::i(rep.histories.len()))
-        .set("distinct_interleavings", J::i(rep.interleavings.len()))
+        .set(
+            "distinct_interleavings",
+            if rep.interleavings.is_empty() {
+                J::s("n/a - one simulated task per run in this scenario (the history order is the only schedule)")
+            } else {
+                J::i(rep.interleavings.len())
+            },
+        )
         .set(
             "determinism_selfcheck",
             J::obj()
